@@ -86,6 +86,7 @@ int strncmp(const char *a, const char *b, size_t n){
   return r;
 }
 int strcasecmp(const char *a, const char *b){ (void)strlen(a); (void)strlen(b); return nondet_int(); }
+#ifndef VERIF_NO_STRCHR
 char *strchr(const char *s, int c){
   size_t l = strlen(s);
   if ((char)c == 0) return (char *)s + l;
@@ -94,7 +95,8 @@ char *strchr(const char *s, int c){
   __CPROVER_assume(s[k] == (char)c);
   return (char *)s + k;
 }
-char *strrchr(const char *s, int c){ return strchr(s, c); }
+#endif
+char *strrchr(const char *s, int c){ size_t l = strlen(s); if ((char)c == 0) return (char *)s + l; if (l == 0 || nondet_bool()) return 0; size_t k = nondet_size_t(); __CPROVER_assume(k < l); return (char *)s + k; }
 static char *verif_strstr(const char *h, const char *n){
   size_t hl = strlen(h), nl = strlen(n);
   if (nl > hl || nondet_bool()) return 0;
